@@ -147,6 +147,31 @@ def obstacle_spec(role, shape_name, cls, t0, n, pose_shift=0, gap=0):
              "prediction": {"k": "trajectory", "t0": t0 + 1 + gap, "shape": sh, "states": states}}, None)
 
 
+# occupancy time steps of set-based predictions given as true intervals (offsets from the prediction's first step): consecutive, with a gap,
+# overlapping, nested, mixed with plain steps, and listed out of order
+IV_LAYOUTS = {"consecutive": [(0, 1), (2, 4)], "gap": [(0, 1), (3, 4)], "overlap": [(0, 2), (1, 5)], "nested": [(0, 5), (1, 2)], "nested-late": [(1, 2), (0, 5)],
+              "mixed": [0, (1, 3), 4], "unordered": [(3, 4), (0, 2)], "overlap-late-short": [(1, 3), (2, 6), (0, 0)]}
+
+
+def obstacle_spec_iv(role, layout, t0, shift=0):
+    x, y, th = POSES[shift % len(POSES)]
+    occ = []
+    for i, w in enumerate(IV_LAYOUTS[layout]):
+        px, py, pth = POSES[(shift + 1 + i) % len(POSES)]
+        tt = t0 + 1 + w if isinstance(w, int) else ["iv", t0 + 1 + w[0], t0 + 1 + w[1]]
+        occ.append({"t": tt, "shape": ["rect", 3.0 + i, 2.0, px, py, pth] if i % 2 == 0 else ["circle", 1.0 + i, px, py]})
+    pred = {"k": "set", "t0": t0 + 1, "occ": occ}
+    if role == "phantom":
+        return {"role": "phantom", "id": 61, "prediction": pred}
+    return {"role": "dynamic", "id": 62, "type": "CAR", "shape": SHAPES["rect"], "initial_state": spec.init_state(x=x, y=y, o=th, t=t0), "prediction": pred}
+
+
+def expected_occupancies(osp, t):
+    """all stored occupancies of a set-based prediction whose time step (interval) contains t"""
+    return [place(o["shape"], 0.0, 0.0, 0.0) for o in osp["prediction"]["occ"]
+            if (isinstance(o["t"], list) and o["t"][1] <= t <= o["t"][2]) or o["t"] == t]
+
+
 def expected_occupancy(osp, t):
     """snapshot of the expected region at t, or None"""
     role = osp["role"]
@@ -195,15 +220,16 @@ def expected_state_time(osp, t):
 def horizon(osp):
     if osp["role"] in ("environment",):
         return 0, 3
+    def last(p):
+        return max(o["t"][2] if isinstance(o["t"], list) else o["t"] for o in p["occ"])
     if osp["role"] == "phantom":
         p = osp["prediction"]
-        return p["t0"], p["t0"] + len(p["occ"]) - 1
+        return p["t0"], last(p)
     t0 = osp["initial_state"]["attrs"]["time_step"]
     p = osp.get("prediction")
     if not p:
         return t0, t0
-    n = len(p["states"]) if p["k"] == "trajectory" else len(p["occ"])
-    return t0, p["t0"] + n - 1
+    return t0, (p["t0"] + len(p["states"]) - 1) if p["k"] == "trajectory" else last(p)
 
 
 def check_exact(osp, tag, res):
@@ -223,6 +249,12 @@ def check_exact(osp, tag, res):
             continue
         exp = expected_occupancy(osp, t)
         got = None if occ is None else snap.shape(occ.shape)
+        if got is not None and exp is not None and osp.get("prediction") and osp["prediction"]["k"] == "set" and not \
+                (role == "dynamic" and t == osp["initial_state"]["attrs"]["time_step"]):
+            # several stored occupancies may cover t (overlapping time intervals): any of them is "the stored occupancy"
+            cands = expected_occupancies(osp, t)
+            if len(cands) > 1:
+                exp = next((c for c in cands if not list(shape_diff(c, got))), exp)
         if exp is not None and got is not None and "group-offcentre" in tag and role != "environment":
             # the statement does not fix the rotation centre of off-centre members of a shape group (the library rotates
             # every member about its own centre): existence and time pairing are decided, the placed region is not
@@ -530,6 +562,8 @@ def units(tier):
         for cls in TRAJ_CLASSES:
             u.append({"k": "exact", "role": "dynamic-traj", "shape": sn, "cls": cls})
     u.append({"k": "exact", "role": "dynamic-set", "shape": "rect"}); u.append({"k": "exact", "role": "phantom", "shape": "rect"})
+    for role in ("dynamic-set", "phantom"):
+        u.append({"k": "exact-iv", "role": role})
     for sn in ("rect", "circle", "poly"):
         u.append({"k": "mutated", "shape": sn})
     for role in ("static", "dynamic"):
@@ -557,6 +591,13 @@ def run_unit(unit, tier):
                         check_exact(osp, tag, res)
                         res.states += 1
         res.sample({"k": "exact", "role": role, "shape": sn, "cls": cls}, 1)
+    elif k == "exact-iv":
+        for layout in IV_LAYOUTS:
+            for t0 in (0, 3):
+                for shift in range(len(POSES)):
+                    check_exact(obstacle_spec_iv(unit["role"], layout, t0, shift), f"{unit['role']}|interval-steps:{layout}|-|exact", res)
+                    res.states += 1
+        res.sample({"k": "exact-iv", "role": unit["role"], "layouts": sorted(IV_LAYOUTS)}, 1)
     elif k == "mutated":
         for cls in ("KSState", "PMState", "CustomState"):
             for shift in range(len(POSES)):
